@@ -119,6 +119,28 @@ impl Property for C07 {
         if rng.chance(1, 80) {
             return gen_path_max(rng);
         }
+        if rng.chance(1, 8000) {
+            // more than 65535 records through the pipe
+            let mut spec = crate::tree::TreeSpec::default();
+            spec.nodes.push(crate::tree::Node::Dir { path: "t".into() });
+            spec.bulk.push(crate::tree::Bulk { dir: "t".into(), count: *rng.pick(&[65_534usize, 65_535, 65_536, 70_000]), kind: crate::tree::BulkKind::File });
+            let find = FindScenario::new(spec, vec![]);
+            let mut sc = Sc {
+                find,
+                start: "t".into(),
+                sorted: true,
+                nul: true,
+                read_sizes: vec![*rng.pick(&[0usize, 4096, 8192])],
+                read_intr_every: 0,
+                outcomes: vec![],
+                xargs_n: if rng.chance(1, 2) { Some(*rng.pick(&[1000usize, 65_536, 70_000])) } else { None },
+                follow: None,
+                files0: false,
+                xargs_replace: false,
+            };
+            sc.render();
+            return sc;
+        }
         // the starting point itself may be any name: only blanks, a newline in it, multi-byte
         let root = rng.pick(&["t", "t", "t", "t", "t", "t", " ", "  ", "a b", "\t", "\u{e9}", "t\n", "'", "{}", "\u{feff}inbox", "\u{feff}", "#!x"]).to_string();
         let cfg = TreeCfg {
@@ -196,6 +218,10 @@ impl Property for C07 {
         let _ = std::env::set_current_dir(&ctx.scratch);
         crate::sys::wipe(&root);
         std::fs::create_dir_all(&root).expect("scratch root");
+        if sc.find.tree.bulk.iter().any(|b| b.count >= 65_534) {
+            rep.probe("more_than_65535_records_through_the_pipe");
+            rep.want_sample = false;
+        }
         if sc.find.tree.nodes.iter().any(|n| n.path().len() > 4000) {
             // paths at PATH_MAX - 1: everything happens with relative names from here
             let _ = std::env::set_current_dir(&root);
